@@ -45,7 +45,8 @@ PART = {
     obligations=[_P + "C12." + n for n in [
         "C12_plain_impl_eq_spec", "C12_plain_impl_to_spec", "C12_plain_spec_to_impl",
         "C12_plain_boolean_decoder_eq_spec", "C12_plain_byte_array_decoder_eq_spec",
-        "C12_plain_fixed_decoder_eq_spec",
+        "C12_plain_fixed_decoder_eq_spec", "C12_plain_int96_decoder_eq_spec", "C12_plain_int96_words_determined",
+        "C12_plain_flba_decoder_eq_spec",
         "C12_bss_impl_eq_spec", "C12_bss_impl_to_spec", "C12_bss_spec_to_impl", "C12_bss_decoder_eq_spec",
         "C12_dictionary_page_is_plain"]],
     components=["plain", "dict"],
@@ -77,7 +78,7 @@ PART['C11'].update(
     level_note='Lean kernel; translator (dictionary constants); harness with exact-size buffers under ASan/UBSan',
     technique='Lean 4 proofs over executable models mirroring the C, differential correspondence to the C code')
 PART['C12'].update(
-    text="(PLAIN / BYTE_STREAM_SPLIT / dictionary page parts) encoder bytes proved equal to an independent Spec encoder written from the Parquet Encodings document; Spec decoder reads carquet's bytes and carquet's decoders read Spec bytes; boolean decoder equal to the Spec decoder on every input",
+    text="(PLAIN / BYTE_STREAM_SPLIT / dictionary page parts) encoder bytes proved equal to an independent Spec encoder written from the Parquet Encodings document; Spec decoder reads carquet's bytes and carquet's decoders read Spec bytes; all eight PLAIN decoders (BOOLEAN, INT32, INT64, INT96, FLOAT, DOUBLE, BYTE_ARRAY, FIXED_LEN_BYTE_ARRAY) equal to the Spec decoders on every input (accept/reject, values, bytes consumed)",
     level_note='Lean kernel; harness; my reading of the format document',
     technique="Lean 4 proofs Impl = Spec, plus Spec decoders run on the real encoder's output in the driver")
 PART['C08'].update(
